@@ -44,7 +44,7 @@ func drawDelta(rt *rapid.T, r *nnsRun) int64 {
 func TestC10Stateful(t *testing.T) {
 	theT = t
 	col := ev.New("C10", "stateful",
-		"rapid state machine with a harness-owned clock over registerTLD/register (levels 2..4 under com/org, lifetimes 1/2/5/1000 s and 1 year)/transfer (to other users, to self, to a contract, to a contract that transfers the name on from its payment callback; one in three with another spelling of the token id - trailing root dot, upper-case first letter - which must be refused or be a complete transfer of the name)/renew 1..10 years/setAdmin, every call made by properly authorised signers, each block placed at now+1 ms or exactly at exp-1/exp/exp+1 of a known name; after every step totalSupply, balanceOf and tokensOf of every owner, and isAvailable/ownerOf/properties of all 10 names of the universe at now+1 and at exp-1/exp/exp+1 of each name are compared with the ownership model; Transfer/Renew notifications per transaction are exact; non-trivial = a takeover of an expired name by a different owner or an operation placed exactly at an expiration instant",
+		"rapid state machine with a harness-owned clock over registerTLD/register (levels 2..4 under com/org, lifetimes 1/2/5/1000 s and 1 year)/transfer (to other users, to self, to a contract, to a contract that transfers the name on from its payment callback; one in three with another spelling of the token id - trailing root dot, upper-case first letter - which must be refused or be a complete transfer of the name)/renew 1..10 years/setAdmin, every call made by properly authorised signers (except one registration in six, made on behalf of an owner who does not sign - refused whether the name is new, live or expired), each block placed at now+1 ms or exactly at exp-1/exp/exp+1 of a known name; after every step totalSupply, balanceOf and tokensOf of every owner, and isAvailable/ownerOf/properties of all 10 names of the universe at now+1 and at exp-1/exp/exp+1 of each name are compared with the ownership model; Transfer/Renew notifications per transaction are exact; non-trivial = a takeover of an expired name by a different owner or an operation placed exactly at an expiration instant",
 		"isAvailable of an unexpired name under an expired parent is don't-care (statement silent)", "calls are authorised as C11 demands (authorisation itself is C11)")
 	runRapid(t, col, func(rt *rapid.T, h *ev.History) {
 		w := newNnsWorld(1, h)
@@ -114,6 +114,12 @@ func TestC10Stateful(t *testing.T) {
 				name := pickNew("name")
 				owner := rapid.SampledFrom(owners).Draw(rt, "owner")
 				wh := as(owner)
+				if rapid.IntRange(0, 5).Draw(rt, "onBehalfWithoutWitness") == 0 {
+					// somebody else registers (or takes over an expired name) for an owner who does not sign: refused,
+					// whether the name is new, live or expired
+					wh = as(owners[(indexOf(owners, owner)+1)%3])
+					h.Mark("register-on-behalf-without-the-owner's-witness")
+				}
 				if levelOf(name) > 2 {
 					// add the witness of the parent's owner
 					if pw, ok := ownerWho(parentOf(name)); ok {
@@ -185,4 +191,13 @@ func TestC10Stateful(t *testing.T) {
 			h.NonTrivial()
 		}
 	})
+}
+
+func indexOf(list []util.Uint160, x util.Uint160) int {
+	for i := range list {
+		if list[i] == x {
+			return i
+		}
+	}
+	return 0
 }
